@@ -152,6 +152,7 @@ type FuncCtx struct {
 	freshRefs map[string]bool
 	guardMode bool
 	recSelf   string
+	boxed     map[string]string // interface term | dynamic type -> payload term (for unbox(box(x)) = x at generation time)
 	entryLocksSymbolic bool
 }
 
@@ -590,9 +591,14 @@ func (fc *FuncCtx) scalarFacts(st *State, sc Scalar) {
 		fc.u.fact(st.pc, fc.rangeFact(sc.T, sc.Typ))
 		return
 	}
-	switch sc.Typ.Underlying().(type) {
+	switch u := sc.Typ.Underlying().(type) {
 	case *types.Pointer, *types.Map, *types.Chan:
 		fc.u.fact(st.pc, "(and (<= 0 "+sc.T+") (<= "+sc.T+" "+fc.allocTerm(st)+"))")
+		if ch, isCh := u.(*types.Chan); isCh {
+			// channels of different element types are different objects
+			fc.u.declare("chantype", "(declare-fun chantype (Int) Int)")
+			fc.u.fact(st.pc, tImp(tNot(tEq(sc.T, "0")), "(= (chantype "+sc.T+") "+fc.typeTag(ch.Elem())+")"))
+		}
 	}
 	if isString(sc.Typ) && fc.strmode == "opaque" {
 		fc.u.declare("strlen", "(declare-fun strlen (Str) Int)")
